@@ -102,7 +102,16 @@ _CTX = {}
 def run_word(build, wd, cfg, word):
     desc = make_desc(cfg)
     hist = to_history(desc, cfg, word)
-    res, out = viewcmp.run_history(build, wd, desc, hist)
+    # the ovni model alone, every model enabled (-a), or some models required by the
+    # trace: the thread life cycle must not depend on which other models are there
+    sel = (len(word) + sum(t for t, _ in word)) % 3
+    if sel == 1:
+        res, out = viewcmp.run_history(build, wd, desc, hist, args=["-a"])
+    elif sel == 2:
+        import histgen
+        res, out = viewcmp.run_history(build, wd, desc, hist, require=histgen.require_of("VK6"))
+    else:
+        res, out = viewcmp.run_history(build, wd, desc, hist)
     return desc, hist, res, out
 
 
